@@ -42,22 +42,23 @@ Definition unit_tags (body : ty) : string :=
   match body with TStruct _ => "field" | TMap _ _ => "rootmap" | TSlice _ => "rootslice" | _ => "other" end ++
   ",d" ++ nat_to_string (depth body).
 
-Definition case_line_as (grouped : bool) (id : string) (u : string * ty) : string :=
+Definition case_line_mode (reversed grouped : bool) (id : string) (u : string * ty) : string :=
   let '(root, body) := u in
   let pkg := pkg_of id in let imp := imp_of id in
   let ds := decls_of_root root body in
-  let src := if grouped then go_file_grouped pkg ds else go_file pkg ds in
+  let src := if grouped then go_file_grouped pkg ds else go_file pkg (if reversed then rev ds else ds) in
   let an := ast_nodes pkg imp ds in
   let ln := loader_nodes pkg imp ds in
   let files := join "," (sort_strs (map (fun n => lower_str (n_name n) ++ "_ins.go") an)) in
   let xa := join "," (sort_strs (map (fun n => lower_str (n_name n) ++ ":" ++ hash_text (xml n)) an)) in
   let xl := join "," (sort_strs (map (fun n => lower_str (n_name n) ++ ":" ++ hash_text (xml n)) ln)) in
   (* the multi-field and grouped units are generated a second time by a process that has generated nothing else *)
-  let hist := match id with String "M" _ | String "G" _ => ";hist=ok" | _ => "" end in
+  let hist := match id with String "M" _ | String "G" _ | String "R" _ => ";hist=ok" | _ => "" end in
   let model := "gen=ok;files=" ++ files ++ ";fmt=ok;build=ok;iface=ok;xmlast=" ++ xa ++ ";xmlpkg=" ++ xl ++ ";det=ok;tgt=ok" ++ hist in
-  id ++ tab ++ unit_tags body ++ (if grouped then ",grouped" else "") ++ tab ++ pkg ++ ";" ++ root ++ ";" ++ hex_of_bytes (bytes_of_string src) ++ tab ++
+  id ++ tab ++ unit_tags body ++ (if grouped then ",grouped" else "") ++ (if reversed then ",reversed" else "") ++ tab ++ pkg ++ ";" ++ root ++ ";" ++ hex_of_bytes (bytes_of_string src) ++ tab ++
   (if sup_root body then model else "?") ++ tab ++ model.
 
+Definition case_line_as (grouped : bool) (id : string) (u : string * ty) : string := case_line_mode false grouped id u.
 Definition case_line (u : string * ty) : string := case_line_as false (fst u) u.
 
 (* the multi-field units once more, written as ONE parenthesised type group (named scalars and the other named types come
@@ -68,7 +69,12 @@ Definition multi_units : list (string * ty) :=
 Definition grouped_cases : list string :=
   map (fun u : string * ty => case_line_as true (String.append "G" (fst u)) u) multi_units.
 
-Definition cases (tier : Z) (seed : Z) : list string := map case_line (candidate_units tier) ++ grouped_cases.
+(* ... and with the declarations in REVERSE order: the root first, every type used before it is declared (forward references
+   inside one file are ordinary Go; a front end that resolves names while it walks the file sees them as unknown) *)
+Definition reversed_cases : list string :=
+  map (fun u : string * ty => case_line_mode true false (String.append "R" (fst u)) u) multi_units.
+
+Definition cases (tier : Z) (seed : Z) : list string := map case_line (candidate_units tier) ++ grouped_cases ++ reversed_cases.
 
 (* the units the emitter streams link into their runner *)
 Definition emit_cases (tier : Z) (seed : Z) : list string := map case_line (emit_units tier).
